@@ -173,8 +173,11 @@ def _enclosing_try(fnode, node):
 
 def r1_pure_handover(ctx):
     repo = ctx.repo
-    eg = entrygen(ctx)
-    gen = eg.fi
+    gen = A.entry_generator(repo)
+    try:
+        eg = entrygen(ctx)
+    except AnalysisError:
+        eg = None
     oc = A.function_class(repo)
     depgen = A.dependent_generator(repo)
     ctx.touch(gen, depgen)
@@ -195,9 +198,13 @@ def r1_pure_handover(ctx):
             f"the emitted code `{' '.join(sk.text.split())[:80]}` post-processes the method's result or catches its exceptions: some result or error no longer reaches the caller unchanged",
         )
 
-    tpl = gen.module.str_constants[eg.call_tpl]
-    node = gen.module.assigns[eg.call_tpl]
-    check_skeleton(from_format(tpl, node), f"{gen.module.name}.{eg.call_tpl}:return-call", f"{gen.module.rel}:{node.lineno}", "entry point")
+    def _tpl(ctx_):
+        tpl = gen.module.str_constants[eg.call_tpl]
+        node = gen.module.assigns[eg.call_tpl]
+        check_skeleton(from_format(tpl, node), f"{gen.module.name}.{eg.call_tpl}:return-call", f"{gen.module.rel}:{node.lineno}", "entry point")
+
+    _with_fallback(ctx, ("hand-over",), _tpl)
+    n += 1
     # dependent skeletons: every emitted line that calls HANDLER*/FALLTHROUGH
     for e in emissions(depgen.node):
         sk = e.skeleton
@@ -309,7 +316,7 @@ def r1_pure_handover(ctx):
 
 
 # ----------------------------------------------------------------- R2
-def r2_one_name_three_roles(ctx, rule_filter=None):
+def _skeleton_r2_one_name_three_roles(ctx, rule_filter=None):
     eg = entrygen(ctx)
     gen = eg.fi
     ctx.touch(gen)
@@ -507,7 +514,7 @@ def _slices(e, listname):
     return pre, tail, whole
 
 
-def r3_early_exits(ctx):
+def _skeleton_r3_early_exits(ctx):
     eg = entrygen(ctx)
     gen = eg.fi
     ctx.touch(gen)
@@ -599,6 +606,28 @@ def r5_one_derivation_of_is_method(ctx):
         ctx.touch(f)
         ctx.ob(f"{f.key}:is-method-from-analysis", f.loc(), "self is threaded according to the signature analysis' is_method", True)
     ctx.require(n >= 3, "expected the generator, the rewriter and the dependent wrapper to thread self")
+
+
+def _with_fallback(ctx, laws, fallback):
+    """Decide on the abstractly executed entry point; if the generator uses a construct the interpreter does not
+    model, fall back to reading its emission skeleton."""
+    from . import entrygen
+
+    n0 = len(ctx.obs)
+    try:
+        entrygen.law(ctx, *laws)
+    except AnalysisError as e:
+        del ctx.obs[n0:]
+        ctx.note(f"entry-point generator not interpretable ({e}); emission-skeleton rules used instead")
+        fallback(ctx)
+
+
+def r2_one_name_three_roles(ctx, rule_filter=None):
+    _with_fallback(ctx, ("signature", "full-call", "optional-keywords", "key-functions", "per-call-state"), _skeleton_r2_one_name_three_roles)
+
+
+def r3_early_exits(ctx):
+    _with_fallback(ctx, ("early-exits",), _skeleton_r3_early_exits)
 
 
 def r4(ctx):
